@@ -1072,7 +1072,21 @@ def _sym_array_len(t, b):
     return int(m.group(1)) if m else None
 
 
+def h_split_at_mut(I, st, a, t, b):
+    """slice::split_at_mut / split_at: the two narrowed views of the same sequence"""
+    r, k = a[0], a[1]
+    if isinstance(r, tuple) and r and r[0] in ('ref', 'mref') and isinstance(k, int) and not isinstance(k, bool):
+        tgt = I.deref(r, st)
+        if isinstance(tgt, (tuple, list)) and 0 <= k <= len(tgt):
+            return ({'#subslice': (r, 0, k)}, {'#subslice': (r, k, len(tgt))})
+    raise Unsupported('split_at of %r at %r' % (r, k))
+
+
 def h_iter(I, st, a, t, b):
+    if isinstance(a[0], dict) and '#subslice' in a[0]:
+        base, lo, hi = a[0]['#subslice']
+        whole = I.deref(base, st)
+        return {'#iter': 'seq', 'items': tuple(('refval', x, ()) for x in whole[lo:hi]), 'pos': 0}
     tgt = _deref_arg(I, st, a[0])
     while isinstance(tgt, tuple) and tgt and tgt[0] in ('ref', 'refval', 'mref'):
         tgt = I.deref(tgt, st)
@@ -1205,7 +1219,7 @@ BUILTINS = {
     'f64::rem_euclid': h_rem_euclid, 'f64::signum': h_signum,
     'f64::to_radians': h_to_radians, 'f64::to_degrees': h_to_degrees,
     'f64::min': h_min, 'f64::max': h_max,
-    'IntoIterator::into_iter': h_into_iter, 'slice::iter': h_iter,
+    'IntoIterator::into_iter': h_into_iter, 'slice::iter': h_iter, 'slice::split_at_mut': h_split_at_mut, 'slice::split_at': h_split_at_mut,
     'Iterator::rev': h_rev, 'Iterator::enumerate': h_enumerate, 'Iterator::next': h_next,
     'Vec::len': h_len, 'slice::len': h_len, 'HashSet::len': h_len,
     'Clone::clone': h_clone, 'Ord::max': h_ord_max, 'Ord::min': h_ord_min,
